@@ -950,12 +950,34 @@ fn check_budget<const N: usize>(
     let simp = guarded(|| {
         f.simplify_with::<N>(&trace, VmData::<N>::default(), &mut VmWorkspace::<N>::default())
     });
+    // ... and so is a tape simplified into storage recycled from an
+    // unrelated function whose bytecode has been emitted before (the
+    // previous case of this thread at the same budget)
+    let spare = SPARE.with(|m| m.borrow_mut().remove(&N)).and_then(|b| b.downcast::<VmData<N>>().ok());
+    let mut keep: Option<GenericVmFunction<N>> = None;
+    if let Some(spare) = spare {
+        st.inc("simplifications_into_recycled_storage");
+        match guarded(|| f.simplify_with::<N>(&trace, *spare, &mut VmWorkspace::<N>::default())) {
+            Ok(Ok(g)) => {
+                check_data::<N>(cx, &g, "simplified_recycled", None, st);
+                keep = Some(g);
+            }
+            Ok(Err(_)) => st.inc("simplification_failed"),
+            Err(pi) => {
+                st.inc("simplification_failed");
+                st.set_insert("simplification_panic_sites", &format!("{}:{}", pi.site(), pi.msg_class()));
+            }
+        }
+    }
     match simp {
         Ok(Ok(g)) => {
             if g.data().len() != f.data().len() {
                 st.inc("simplified_tapes_shorter");
             }
             check_data::<N>(cx, &g, "simplified", None, st);
+            if keep.is_none() || cx.case % 2 == 0 {
+                keep = Some(g);
+            }
         }
         // simplification is judged by C04
         Ok(Err(_)) => st.inc("simplification_failed"),
@@ -968,6 +990,19 @@ fn check_budget<const N: usize>(
             );
         }
     }
+    // hand the storage of a tape whose bytecode has been emitted to the next
+    // case of this thread: alternately the full tape and a simplified one
+    drop(tape);
+    drop(pe);
+    let donor = if cx.case % 3 == 0 { Some(f) } else { keep };
+    if let Some(d) = donor.and_then(|d| d.recycle()) {
+        SPARE.with(|m| m.borrow_mut().insert(N, Box::new(d)));
+    }
+}
+
+thread_local! {
+    /// budget -> storage (`VmData<N>`) recycled from an earlier case
+    static SPARE: std::cell::RefCell<std::collections::HashMap<usize, Box<dyn std::any::Any>>> = std::cell::RefCell::new(Default::default());
 }
 
 impl Prop for C15 {
